@@ -427,3 +427,38 @@ func classifyBody(w *world.World, rb []byte, text string) respBody {
 	}
 	return respBody{Cls: "other", N: -1}
 }
+
+func init() { commands["fuzzcfg"] = fuzzCfgMain }
+
+// fuzzCfgMain writes the configuration and the seed corpus for the native fuzz target (valid requests of every verdict class).
+func fuzzCfgMain(args []string) error {
+	fs := flag.NewFlagSet("fuzzcfg", flag.ExitOnError)
+	out := fs.String("out", "", "config json")
+	seed := fs.Int64("seed", 1, "seed")
+	_ = fs.Parse(args)
+	w := world.New(world.Params{Logs: []string{"l1"}, MaxSize: 4, NBranch: 2, ForkAt: []int{2}, MaxLines: 6, NWitKeys: 2, Embed: "pow2", Seed: *seed, RunTag: "fuzz"})
+	l := w.Logs["l1"]
+	mk := func(kind string, rq world.Req, stored *world.CP) []byte {
+		c := w.Concretise("l1", rq, stored)
+		return renderBody(w, bastionStep{Kind: kind, Log: "l1", Req: &rq}, c)
+	}
+	E := world.Pf{K: "empty"}
+	st := &world.CP{B: 0, N: 2, Lines: 3}
+	cfg := map[string]any{"Origin": l.Origin, "LogVKey": l.Key.VKey(), "WitSKey": w.WitKey.SKey(),
+		"Setup": [][]byte{mk("ok", world.Req{Auth: "good", B: 0, N: 2, Pf: E}, nil)}}
+	seeds := [][]byte{
+		mk("ok", world.Req{Auth: "good", Old: 2, B: 0, N: 3, Pf: world.Pf{K: "right", B: 0, M: 2, N: 3}}, st),   // would be accepted
+		mk("ok", world.Req{Auth: "good", Old: 2, B: 0, N: 2, Pf: E}, st),                                        // refresh
+		mk("ok", world.Req{Auth: "good", Old: 1, B: 0, N: 3, Pf: world.Pf{K: "right", B: 0, M: 1, N: 3}}, st),   // stale
+		mk("ok", world.Req{Auth: "good", Old: 4, B: 0, N: 3, Pf: E}, st),                                        // old size too large
+		mk("ok", world.Req{Auth: "good", Old: 2, B: 2, N: 2, Pf: E}, st),                                        // root mismatch
+		mk("ok", world.Req{Auth: "good", Old: 2, B: 0, N: 4, Pf: world.Pf{K: "bad", Kind: "flip"}}, st),         // invalid proof
+		mk("ok", world.Req{Auth: "badsig", B: 0, N: 3, Pf: E}, st),                                              // no valid signature
+		mk("unknown-origin", world.Req{Auth: "good", B: 0, N: 3, Pf: E}, st),
+		mk("nosize", world.Req{Auth: "good", B: 0, N: 3, Pf: E}, st), mk("notb64", world.Req{Auth: "good", B: 0, N: 3, Pf: E}, st),
+		mk("noblank", world.Req{Auth: "good", B: 0, N: 3, Pf: E}, st), mk("cp-one-line", world.Req{Auth: "good", B: 0, N: 3, Pf: E}, st),
+	}
+	cfg["Seeds"] = seeds
+	b, _ := json.Marshal(cfg)
+	return os.WriteFile(*out, b, 0o644)
+}
